@@ -26,6 +26,17 @@ def cases(tier, rng, boost=1):
     yield _mk([[-1, -1, -1, 2, 2, 2]], 2, True, src='corpus')          # D1
     yield _mk([[0, 0, 0, 1, 1, 1], [1, 1, 1, 0, 0, 0, 0]], 2, True, src='corpus')   # D8
     yield _mk([[-1, -1, 3, 3, 3]], 3, False, src='corpus')
+    # many states (beyond the 8-bit range), narrow per-array dtypes, long runs: index / label arithmetic in a narrow dtype would wrap
+    brng = core.Rng(41)
+    big = []
+    for _k in range(3):
+        t = []
+        for _j in range(120):
+            t += [brng.randrange(300)] * brng.choice([1, 2, 3, 4, 6])
+        big.append(t)
+    for form in ('per_array_narrow', 'list_of_arrays', 'statetraj'):
+        yield _mk(big, 3, True, form=form, src='corpus-big')
+        yield _mk([[x - 150 for x in t] for t in big], 2, False, form=form, src='corpus-big')
     yield _mk([[1, 1, 2, 2, 1, 1, 1]], 0, True, src='corpus')
     yield _mk([[1, 1, 2, 2, 1, 1, 1]], -2, False, src='corpus')
     maxlen = {'quick': 7, 'thorough': 10, 'search': 8}[tier]
